@@ -179,6 +179,136 @@ def thread_independence(chk, quick, rng):
                 chk.violation({"kind": "threads", "op": op["name"]}, f"kernel {op} on shape {shape}: results differ between thread counts {counts}")
 
 
+def coupled_thread_independence(chk, quick, rng):
+    """interactions and time steps: bit-identical for every thread count handed to the public classes."""
+    import elastica as ea
+    import sopht.simulator as sps
+    from sopht.numeric.immersed_boundary_ops import VirtualBoundaryForcing
+
+    shim.set_backend("compile")
+    counts = (False, 1, 2, 4)
+    # (a) two bodies sharing one forcing field, interactors built with num_threads = nt (2-D rigid bodies, 3-D low-level objects)
+    h = 0.125
+    grid = (24, 28)
+    vel = rng.normal(size=(2,) + grid)
+    for reset in (False, True):
+        results = {}
+        for nt in counts:
+            forcing = np.zeros_like(vel)
+            inters = []
+            for cx in (1.2, 1.9):
+                body = ea.Cylinder(np.array([cx, 1.4, 0.0]), np.array([0.0, 0.0, 1.0]), np.array([1.0, 0.0, 0.0]), 1.0, 0.3, density=1e3)
+                body.velocity_collection[:2, 0] = [0.3, -0.2]
+                body.omega_collection[2, 0] = 0.7
+                inters.append(sps.RigidBodyFlowInteraction(
+                    rigid_body=body, eul_grid_forcing_field=forcing, eul_grid_velocity_field=vel, virtual_boundary_stiffness_coeff=3e2,
+                    virtual_boundary_damping_coeff=0.7, dx=h, grid_dim=2, forcing_grid_cls=sps.CircularCylinderForcingGrid, num_forcing_points=16,
+                    enable_eul_grid_forcing_reset=reset, num_threads=nt))
+            for it in inters:
+                it()
+                it.time_step(dt=0.25)
+            for it in inters:
+                it()
+            results[nt] = forcing.tobytes() + b"".join(it.lag_grid_forcing_field.tobytes() for it in inters)
+        chk.traces += 1
+        chk.count(("coupled threads 2d", reset))
+        if len(set(results.values())) > 1:
+            same = [nt for nt in counts if results[nt] == results[False]]
+            chk.violation({"kind": "threads_coupled", "dim": 2}, f"two rigid bodies sharing one forcing field (reset={reset}): results differ between interactor "
+                          f"thread counts {counts} (identical to the default only for {same})")
+    grid3 = (10, 12, 14)
+    vel3 = rng.normal(size=(3,) + grid3)
+    other = rng.integers(-2, 3, (3,) + grid3).astype(float)
+    for reset in (False, True):
+        results = {}
+        for nt in counts:
+            forcing = other.copy()                                           # another body's forcing is already in the field
+            o = VirtualBoundaryForcing(virtual_boundary_stiffness_coeff=4.0, virtual_boundary_damping_coeff=2.0, grid_dim=3, dx=0.5, num_lag_nodes=5,
+                                       real_t=np.float64, enable_eul_grid_forcing_reset=reset, num_threads=nt)
+            pos = (np.array([[3.2, 4.1, 5.5, 6.3, 9.4], [2.6, 3.3, 4.8, 6.1, 8.2], [2.4, 3.3, 4.1, 5.2, 6.6]]) * 0.5)
+            vb = np.arange(15, dtype=float).reshape(3, 5) / 7
+            o.compute_interaction_forcing(eul_grid_forcing_field=forcing, eul_grid_velocity_field=vel3, lag_grid_position_field=pos, lag_grid_velocity_field=vb)
+            o.time_step(dt=0.5)
+            o.compute_interaction_forcing(eul_grid_forcing_field=forcing, eul_grid_velocity_field=vel3, lag_grid_position_field=pos, lag_grid_velocity_field=vb)
+            results[nt] = forcing.tobytes() + o.lag_grid_forcing_field.tobytes()
+        chk.traces += 1
+        chk.count(("coupled threads 3d", reset))
+        if len(set(results.values())) > 1:
+            chk.violation({"kind": "threads_coupled", "dim": 3}, f"VirtualBoundaryForcing 3-D (reset={reset}) on a field that already holds forcing: results differ between thread counts {counts}")
+    # (b) whole time steps of the simulators
+    cfgs = [("ns2", dict(grid_size=(12, 14), x_range=1.75, kinematic_viscosity=0.02, with_forcing=True, with_free_stream_flow=True, flow_density=2.0)),
+            ("ns3", dict(grid_size=(8, 9, 10), x_range=1.25, kinematic_viscosity=0.02, with_forcing=True, with_free_stream_flow=True, filter_vorticity=True)),
+            ("pt", dict(grid_dim=2, grid_size=(9, 11), x_range=1.1, kinematic_viscosity=0.05, field_type="scalar"))]
+    if not quick:
+        cfgs.append(("ns3fd", dict(grid_size=(8, 9, 10), x_range=1.25, kinematic_viscosity=0.02, poisson_solver_type="fast_diagonalisation")))
+    for name, kw in cfgs:
+        cls = {"ns2": sps.UnboundedNavierStokesFlowSimulator2D, "ns3": sps.UnboundedNavierStokesFlowSimulator3D, "ns3fd": sps.UnboundedNavierStokesFlowSimulator3D,
+               "pt": sps.PassiveTransportFlowSimulator}[name]
+        D = len(kw["grid_size"])
+        shape = tuple(kw["grid_size"])
+        om0 = rng.normal(size=(shape if name in ("ns2", "pt") else (3,) + shape))
+        m = 3
+        mask = np.zeros(shape)
+        mask[tuple(slice(m, -m) for _ in range(D))] = 1
+        om0 = om0 * mask
+        v0 = rng.normal(size=(D,) + shape)
+        f0 = rng.normal(size=(D,) + shape) * mask
+        results = {}
+        ref_solver = None
+        for nt in (1, 2, 4, 16):
+            sim = cls(real_t=np.float64, num_threads=nt, **kw)
+            # the FFT library plans its transforms per thread count (and per process, by run-time measurement): that choice is probed
+            # separately below (fft_thread_probe); here every simulator uses ONE solver object so that only SophT's own per-cell
+            # loops run with different thread counts
+            if hasattr(sim, "_unbounded_poisson_solver"):
+                if ref_solver is None:
+                    ref_solver = sim._unbounded_poisson_solver
+                sim._unbounded_poisson_solver = ref_solver
+            prim = sim.primary_field if name == "pt" else sim.vorticity_field
+            prim[...] = om0
+            sim.velocity_field[...] = v0
+            for step in range(2):
+                if kw.get("with_forcing"):
+                    sim.eul_grid_forcing_field[...] = f0
+                if kw.get("with_free_stream_flow"):
+                    sim.time_step(dt=0.01, free_stream_velocity=np.array([0.5, -0.25, 0.125][:D]))
+                else:
+                    sim.time_step(dt=0.01)
+            results[nt] = prim.tobytes() + sim.velocity_field.tobytes()
+        chk.traces += 1
+        chk.count(("step threads", name))
+        if len(set(results.values())) > 1:
+            chk.violation({"kind": "threads_step", "sim": name}, f"two time steps of {cls.__name__} {kw}: results differ between num_threads = 1, 2, 4, 16 "
+                          "(same Poisson solver object in all runs)")
+    fft_thread_probe(chk, rng)
+
+
+def fft_thread_probe(chk, rng):
+    """the FFT-based unbounded Poisson solvers with num_threads = 1, 2, 4, 16 on one right-hand side each."""
+    import sopht.numeric.eulerian_grid_ops as spne
+
+    for shape in ((12, 14), (9, 11), (16, 16), (10, 12), (8, 9, 10), (6, 10, 12)):
+        rhs = rng.normal(size=shape)
+        outs = {}
+        for nt in (1, 2, 4, 16):
+            if len(shape) == 2:
+                sol = spne.UnboundedPoissonSolverPYFFTW2D(grid_size_y=shape[0], grid_size_x=shape[1], x_range=1.0, real_t=np.float64, num_threads=nt)
+            else:
+                sol = spne.UnboundedPoissonSolverPYFFTW3D(grid_size_z=shape[0], grid_size_y=shape[1], grid_size_x=shape[2], x_range=1.0, real_t=np.float64, num_threads=nt)
+            o = np.zeros(shape)
+            sol.solve(solution_field=o, rhs_field=rhs.copy())
+            outs[nt] = o
+        chk.traces += 1
+        chk.count(("fft threads", shape))
+        rel = max(float(np.abs(o - outs[1]).max() / np.abs(outs[1]).max()) for o in outs.values())
+        if rel > 64 * float(np.finfo(np.float64).eps):
+            chk.violation({"kind": "threads_fft_large", "dim": len(shape)}, f"unbounded Poisson solve {shape}: results differ by {rel:.3g} (relative) between thread counts")
+        elif len({o.tobytes() for o in outs.values()}) > 1:
+            differing = [nt for nt, o in outs.items() if o.tobytes() != outs[1].tobytes()]
+            chk.violation({"kind": "threads_fft", "dim": len(shape)}, f"unbounded Poisson solve {shape}: num_threads in {differing} differ from num_threads = 1 in the last bits "
+                          f"(max relative difference {rel:.3g})")
+
+
 def run(chk: core.Check):
     shim.install()
     quick = chk.tier == "quick"
@@ -197,6 +327,7 @@ def run(chk: core.Check):
         chk.add_tlc(f"control Sched unsafe offs={offs} aliased={al}", res, expect_violation="Deterministic")
     # ---- call traces validated by the monitor ------------------------------------------------------
     record_everything(chk, quick, rng)
+    coupled_thread_independence(chk, quick, rng)
     events = [dict(e) for e in EVENTS]
     bad_at = validate_trace(chk, events, "TraceKernels all recorded calls")
     chk.traces += sum(e["count"] for e in events)
